@@ -1,11 +1,275 @@
-/- Hand-written executable model (tie B): Validity.  Core Lean only — no Mathlib import in this file. -/
+/- Hand-written executable model (tie B): Validity — the *decision table* by which GSTools admits a
+   covariance model: `check_dim` of the 17 shipped classes, their `default_opt_arg`,
+   `default_opt_arg_bounds` (with the dimension-dependent lower bounds of SuperSpherical, JBessel,
+   TPLSimple evaluated with the dimension AT CONSTRUCTION), `default_arg_bounds` of `CovModel`,
+   the interval test `check_arg_in_bounds` / `check_arg_bounds` of `covmodel/tools.py`, and the
+   dimension rule of `set_dim` (lat-lon forces 3, `+1` when temporal, `spatial_dim`).
+   Beside it the *literature* validity condition `litValid` of every family, written out from the class
+   docstrings / standard references.  Core Lean only — no Mathlib import in this file.
+
+   Everything is polymorphic over the scalar: run on `Rat` by the driver (python doubles are sent as
+   their exact rationals, so the comparison with the real constructor is exact), reasoned about over an
+   arbitrary linearly ordered field in `GSV/Props/C02.lean`. -/
 import GSV.Proto
-open Lean GSV GSV.Proto GSV.Transc
+open Lean GSV GSV.Proto
 namespace GSV.Model.Validity
+
+/-- the 17 shipped model classes (`covmodel/models.py`, `covmodel/tpl_models.py`) -/
+inductive Cls
+  | Gaussian | Exponential | Matern | Integral | Stable | Rational | Cubic | Linear | Circular
+  | Spherical | HyperSpherical | SuperSpherical | JBessel | TPLGaussian | TPLExponential | TPLStable
+  | TPLSimple
+  deriving DecidableEq, Repr, Inhabited
+
+def Cls.all : List Cls :=
+  [.Gaussian, .Exponential, .Matern, .Integral, .Stable, .Rational, .Cubic, .Linear, .Circular,
+   .Spherical, .HyperSpherical, .SuperSpherical, .JBessel, .TPLGaussian, .TPLExponential, .TPLStable,
+   .TPLSimple]
+
+def Cls.name : Cls → String
+  | .Gaussian => "Gaussian" | .Exponential => "Exponential" | .Matern => "Matern"
+  | .Integral => "Integral" | .Stable => "Stable" | .Rational => "Rational" | .Cubic => "Cubic"
+  | .Linear => "Linear" | .Circular => "Circular" | .Spherical => "Spherical"
+  | .HyperSpherical => "HyperSpherical" | .SuperSpherical => "SuperSpherical" | .JBessel => "JBessel"
+  | .TPLGaussian => "TPLGaussian" | .TPLExponential => "TPLExponential" | .TPLStable => "TPLStable"
+  | .TPLSimple => "TPLSimple"
+
+def Cls.ofName (s : String) : Option Cls := Cls.all.find? fun c => c.name == s
+
+/-- interval types of `check_bounds`: first letter = lower end, second = upper end; `c`losed / `o`pen -/
+inductive Iv | oo | cc | oc | co
+  deriving DecidableEq, Repr
+
+def Iv.name : Iv → String | .oo => "oo" | .cc => "cc" | .oc => "oc" | .co => "co"
+def Iv.lowerClosed : Iv → Bool | .cc => true | .co => true | _ => false
+def Iv.upperClosed : Iv → Bool | .cc => true | .oc => true | _ => false
+
+/-- argument names subject to `check_arg_bounds` (anisotropy ratios are handled by `set_len_anis`
+    and belong to C12/C14) -/
+inductive Arg | var | lenScale | nugget | nu | alpha | hurst | lenLow
+  deriving DecidableEq, Repr
+
+def Arg.name : Arg → String
+  | .var => "var" | .lenScale => "len_scale" | .nugget => "nugget" | .nu => "nu" | .alpha => "alpha"
+  | .hurst => "hurst" | .lenLow => "len_low"
+
+/-- `Cubic.check_dim`, `Linear.check_dim`, `Circular.check_dim`, `Spherical.check_dim`; every other class
+    inherits `CovModel.check_dim = True` -/
+def checkDim : Cls → Nat → Bool
+  | .Cubic, d => d < 4
+  | .Linear, d => d < 2
+  | .Circular, d => d < 3
+  | .Spherical, d => d < 4
+  | _, _ => true
+
+/-- The model dimension chosen by `CovModel.__init__` + `set_dim` (no class fixes its dimension):
+    `dim` or `spatial_dim + temporal`; lat-lon forces `3 + temporal`; `ValueError` below 1. -/
+def modelDim (dim : Nat) (spatialDim : Option Nat) (latlon temporal : Bool) : Except String Nat :=
+  let t := if temporal then 1 else 0
+  let d := match spatialDim with | none => dim | some s => s + t
+  let d := if latlon then 3 + t else d
+  if d < 1 then .error "ValueError" else .ok d
+
+section scalar
+variable {α : Type} [Arith α] [DecidableLT α] [DecidableLE α]
+
+/-- a bound triple `[lo, hi, type]`; `hi = none` is `np.inf` -/
+structure Bound (α : Type) where
+  lo : α
+  hi : Option α
+  iv : Iv
+
+/-- values of every argument `check_arg_bounds` looks at (a class only reads its own optional ones) -/
+structure Params (α : Type) where
+  var : α
+  lenScale : α
+  nugget : α
+  nu : α
+  alpha : α
+  hurst : α
+  lenLow : α
+
+def Params.get (p : Params α) : Arg → α
+  | .var => p.var | .lenScale => p.lenScale | .nugget => p.nugget | .nu => p.nu | .alpha => p.alpha
+  | .hurst => p.hurst | .lenLow => p.lenLow
+
+/-- the double nearest to 0.1 (lower end of the `hurst` interval of the TPL models), exactly -/
+def dbl01 : α := ((3602879701896397 : Nat) : α) / ((36028797018963968 : Nat) : α)
+/-- the double nearest to 0.2 (lower end of Matern's `nu`), exactly -/
+def dbl02 : α := ((3602879701896397 : Nat) : α) / ((18014398509481984 : Nat) : α)
+
+/-- `check_arg_in_bounds`: error case 0 (inside) … 4, the upper test overriding the lower one. -/
+def errCase (b : Bound α) (v : α) : Nat :=
+  let e := if b.iv.lowerClosed then (if v < b.lo then 1 else 0) else (if v ≤ b.lo then 2 else 0)
+  match b.hi with
+  | none => e
+  | some hi => if b.iv.upperClosed then (if v > hi then 3 else e) else (if v ≥ hi then 4 else e)
+
+/-- `CovModel.default_arg_bounds` without `anis` -/
+def baseBounds : List (Arg × Bound α) :=
+  [(.var, ⟨((0:Nat):α), none, .oo⟩), (.lenScale, ⟨((0:Nat):α), none, .oo⟩),
+   (.nugget, ⟨((0:Nat):α), none, .co⟩)]
+
+/-- `default_opt_arg_bounds()` of each class, in the order of the returned dict, with `self.dim = d`.
+    Two-element bounds mean `"cc"` (`check_arg_in_bounds`). -/
+def optBounds (c : Cls) (d : Nat) : List (Arg × Bound α) :=
+  let two : α := ((2:Nat):α)
+  let fifty : α := ((50:Nat):α)
+  match c with
+  | .Stable => [(.alpha, ⟨((0:Nat):α), some two, .oc⟩)]
+  | .Matern => [(.nu, ⟨dbl02, some ((30:Nat):α), .cc⟩)]
+  | .Integral => [(.nu, ⟨((0:Nat):α), some fifty, .oc⟩)]
+  | .Rational => [(.alpha, ⟨((1:Nat):α) / two, some fifty, .cc⟩)]
+  | .SuperSpherical => [(.nu, ⟨(((d:Nat):α) - ((1:Nat):α)) / two, some fifty, .cc⟩)]
+  | .JBessel => [(.nu, ⟨((d:Nat):α) / two - ((1:Nat):α), some fifty, .cc⟩)]
+  | .TPLSimple => [(.nu, ⟨(((d:Nat):α) + ((1:Nat):α)) / two, some fifty, .cc⟩)]
+  | .TPLGaussian => [(.hurst, ⟨dbl01, some ((1:Nat):α), .oo⟩), (.lenLow, ⟨((0:Nat):α), none, .co⟩)]
+  | .TPLExponential => [(.hurst, ⟨dbl01, some ((1:Nat):α), .oo⟩), (.lenLow, ⟨((0:Nat):α), none, .co⟩)]
+  | .TPLStable => [(.hurst, ⟨dbl01, some ((1:Nat):α), .oo⟩), (.alpha, ⟨((0:Nat):α), some two, .oc⟩),
+                   (.lenLow, ⟨((0:Nat):α), none, .co⟩)]
+  | _ => []
+
+/-- `default_opt_arg()` of each class with `self.dim = d` (sorted by name as `model.opt_arg`) -/
+def optDefaults (c : Cls) (d : Nat) : List (Arg × α) :=
+  let two : α := ((2:Nat):α)
+  match c with
+  | .Stable => [(.alpha, ((3:Nat):α) / two)]
+  | .Matern => [(.nu, ((1:Nat):α))]
+  | .Integral => [(.nu, ((1:Nat):α))]
+  | .Rational => [(.alpha, ((1:Nat):α))]
+  | .SuperSpherical => [(.nu, (((d:Nat):α) - ((1:Nat):α)) / two)]
+  | .JBessel => [(.nu, ((d:Nat):α) / two)]
+  | .TPLSimple => [(.nu, (((d:Nat):α) + ((1:Nat):α)) / two)]
+  | .TPLGaussian => [(.hurst, ((1:Nat):α) / two), (.lenLow, ((0:Nat):α))]
+  | .TPLExponential => [(.hurst, ((1:Nat):α) / ((4:Nat):α)), (.lenLow, ((0:Nat):α))]
+  | .TPLStable => [(.alpha, ((3:Nat):α) / two), (.hurst, ((1:Nat):α) / two), (.lenLow, ((0:Nat):α))]
+  | _ => []
+
+/-- all bounds in the order `model.arg_bounds` is iterated by `check_arg_bounds` -/
+def allBounds (c : Cls) (d : Nat) : List (Arg × Bound α) := baseBounds ++ optBounds c d
+
+/-- `check_arg_bounds`: the first argument outside its interval raises (argument, error case) -/
+def firstError (bs : List (Arg × Bound α)) (p : Params α) : Option (Arg × Nat) :=
+  bs.findSome? fun (a, b) => let e := errCase b (p.get a); if e = 0 then none else some (a, e)
+
+/-- default parameters of class `c` in dimension `d` (`var = len_scale = 1`, `nugget = 0`) -/
+def defaultParams (c : Cls) (d : Nat) : Params α :=
+  let get (a : Arg) : α := ((optDefaults (α := α) c d).find? (fun x => x.1 == a)).elim ((0:Nat):α) (·.2)
+  ⟨((1:Nat):α), ((1:Nat):α), ((0:Nat):α), get .nu, get .alpha, get .hurst, get .lenLow⟩
+
+/-- **The code's acceptance predicate**: a model of class `c` constructed in dimension `d` with
+    parameters `p` raises nothing and emits no invalid-dimension warning. -/
+def accepts (c : Cls) (d : Nat) (p : Params α) : Bool :=
+  checkDim c d && (firstError (allBounds c d) p).isNone
+
+/-- Acceptance after `model.dim = d1` on a model constructed with dimension `d0`: `set_dim` re-runs
+    `check_dim(d1)` and `check_arg_bounds()`, but the bounds are the ones stored at construction. -/
+def acceptsAfterSetDim (c : Cls) (d0 d1 : Nat) (p : Params α) : Bool :=
+  checkDim c d1 && (firstError (allBounds c d0) p).isNone
+
+/-! ### literature validity -/
+
+/-- The validity condition of each family as a covariance in `ℝ^d` (class docstrings; Matérn 1960,
+    Schoenberg 1938, Askey 1973, Golubov 1981, Gneiting 1999, Chilès & Delfiner, Di Federico & Neuman 1997):
+    * Gaussian, Exponential: every `d`;  Matern, Integral `ν > 0`;  Stable `0 < α ≤ 2`;  Rational `α > 0`;
+    * Cubic `d ≤ 3`, Linear `d ≤ 1`, Circular `d ≤ 2`, Spherical `d ≤ 3`;
+    * HyperSpherical: the `d`-ball intersection model in its own dimension — every `d`;
+    * SuperSpherical `ν ≥ (d−1)/2`;  JBessel `ν ≥ d/2 − 1`;  TPLSimple `ν ≥ (d+1)/2`;
+    * TPLGaussian / TPLExponential `0 < H < 1`, `ℓ_low ≥ 0`;  TPLStable additionally `0 < α ≤ 2`. -/
+def litValidShape (c : Cls) (d : Nat) (p : Params α) : Prop :=
+  let two : α := ((2:Nat):α)
+  match c with
+  | .Gaussian => True
+  | .Exponential => True
+  | .Matern => ((0:Nat):α) < p.nu
+  | .Integral => ((0:Nat):α) < p.nu
+  | .Stable => ((0:Nat):α) < p.alpha ∧ p.alpha ≤ two
+  | .Rational => ((0:Nat):α) < p.alpha
+  | .Cubic => d ≤ 3
+  | .Linear => d ≤ 1
+  | .Circular => d ≤ 2
+  | .Spherical => d ≤ 3
+  | .HyperSpherical => True
+  | .SuperSpherical => (((d:Nat):α) - ((1:Nat):α)) / two ≤ p.nu
+  | .JBessel => ((d:Nat):α) / two - ((1:Nat):α) ≤ p.nu
+  | .TPLSimple => (((d:Nat):α) + ((1:Nat):α)) / two ≤ p.nu
+  | .TPLGaussian => ((0:Nat):α) < p.hurst ∧ p.hurst < ((1:Nat):α) ∧ ((0:Nat):α) ≤ p.lenLow
+  | .TPLExponential => ((0:Nat):α) < p.hurst ∧ p.hurst < ((1:Nat):α) ∧ ((0:Nat):α) ≤ p.lenLow
+  | .TPLStable => ((0:Nat):α) < p.hurst ∧ p.hurst < ((1:Nat):α) ∧ ((0:Nat):α) ≤ p.lenLow ∧
+                  ((0:Nat):α) < p.alpha ∧ p.alpha ≤ two
+
+/-- shape condition + `var ≥ 0`, `len_scale > 0`, `nugget ≥ 0` -/
+def litValid (c : Cls) (d : Nat) (p : Params α) : Prop :=
+  ((0:Nat):α) ≤ p.var ∧ ((0:Nat):α) < p.lenScale ∧ ((0:Nat):α) ≤ p.nugget ∧ litValidShape c d p
+
+end scalar
+
+/-! ### driver operations (scalar = `Rat`) -/
+
+def boundJson (b : Bound Rat) : Json :=
+  Json.arr #[rat b.lo, (match b.hi with | none => Json.null | some h => rat h), Json.str b.iv.name]
+
+def getRatD (j : Json) (k : String) (dflt : Rat) : Rat :=
+  match getRat j k with | .ok v => v | .error _ => dflt
+
+def getCls (j : Json) : Except String Cls := do
+  let s ← getStr j "cls"
+  match Cls.ofName s with | some c => pure c | none => throw s!"unknown class {s}"
+
+def getDims (j : Json) : Except String (Except String Nat) := do
+  let dim ← getNat j "dim"
+  let sd := match getNat j "spatial_dim" with | .ok s => some s | .error _ => none
+  let latlon := match getBool j "latlon" with | .ok b => b | .error _ => false
+  let temporal := match getBool j "temporal" with | .ok b => b | .error _ => false
+  return modelDim dim sd latlon temporal
+
+def getParams (j : Json) (c : Cls) (d : Nat) : Params Rat :=
+  let dp : Params Rat := defaultParams c d
+  ⟨getRatD j "var" dp.var, getRatD j "len_scale" dp.lenScale, getRatD j "nugget" dp.nugget,
+   getRatD j "nu" dp.nu, getRatD j "alpha" dp.alpha, getRatD j "hurst" dp.hurst, getRatD j "len_low" dp.lenLow⟩
+
+def errJson : Option (Arg × Nat) → Json
+  | none => Json.str "ok"
+  | some (a, e) => Json.arr #[Json.str a.name, Json.num (JsonNumber.fromNat e)]
 
 /-- line-protocol operations of this model; `none` = not one of mine -/
 def ops (op : String) (j : Json) : Option (Except String Json) :=
   match op with
+  | "c02_table" => some (do
+      let c ← getCls j
+      match (← getDims j) with
+      | .error e => return Json.mkObj [("error_kind", Json.str e)]
+      | .ok d =>
+        return Json.mkObj [
+          ("dim", Json.num (JsonNumber.fromNat d)),
+          ("check_dim", Json.bool (checkDim c d)),
+          ("opt_arg", Json.arr ((optDefaults (α := Rat) c d).map fun x => Json.str x.1.name).toArray),
+          ("defaults", Json.arr ((optDefaults (α := Rat) c d).map fun x => rat x.2).toArray),
+          ("bounds", Json.mkObj ((optBounds (α := Rat) c d).map fun x => (x.1.name, boundJson x.2))),
+          ("default_accepted", Json.bool (accepts c d (defaultParams (α := Rat) c d)))])
+  | "c02_accepts" => some (do
+      let c ← getCls j
+      match (← getDims j) with
+      | .error e => return Json.mkObj [("error_kind", Json.str e)]
+      | .ok d =>
+        let p := getParams j c d
+        return Json.mkObj [
+          ("dim", Json.num (JsonNumber.fromNat d)),
+          ("warn", Json.bool (!checkDim c d)),
+          ("result", errJson (firstError (allBounds c d) p)),
+          ("accepts", Json.bool (accepts c d p))])
+  | "c02_setdim" => some (do
+      let c ← getCls j
+      let d0 ← getNat j "dim"
+      let d1 ← getNat j "new_dim"
+      if d0 < 1 || d1 < 1 then return Json.mkObj [("error_kind", Json.str "ValueError")] else
+      let p := getParams j c d0
+      return Json.mkObj [
+        ("construct", errJson (firstError (allBounds c d0) p)),
+        ("warn", Json.bool (!checkDim c d1)),
+        ("result", errJson (firstError (allBounds c d0) p)),
+        ("accepts", Json.bool (acceptsAfterSetDim c d0 d1 p)),
+        ("fresh_accepts", Json.bool (accepts c d1 p))])
   | _ => none
 
 end GSV.Model.Validity
